@@ -32,7 +32,7 @@ import (
 func main() {
 	mon.Main(&mon.Spec{
 		ID: "C19",
-		Rule: "each case = one connection history of 0..6 requests (keep-alive, close, pipelined) with a seeded outcome per request {ok, handler panic caught by the recovery middleware, malformed header, body too large, peer closes mid-body, write error, hijack} and a seeded end of connection {peer EOF, idle time-out, reset}, on engines with IdleTimeout 0 (return-to-poller: the rig re-enters Serve while input remains) and > 0, trace levels base and detailed, under seeded segmentation; a quarter of the engines stream request bodies, their tracer first takes a stream from the body-stream pool for a marker body (standing in for another connection) and then reads Request.Body(); POST bodies of 6..9600 bytes are compared with what Request.Body() gives inside Finish (poison-on-free hook H3 on); a recording tracer's Start/Finish calls and the stage events are judged by an online checker of the (Start Finish)* grammar and the stage order; " +
+		Rule: "each case = one connection history of 0..6 requests (keep-alive, close, pipelined) with a seeded outcome per request {ok, handler panic caught by the recovery middleware, malformed header, body too large, peer closes mid-body, write error, hijack} and a seeded end of connection {peer EOF, idle time-out, reset}, on engines with IdleTimeout 0 (return-to-poller: the rig re-enters Serve while input remains) and > 0, trace levels disabled, base and detailed, under seeded segmentation; a quarter of the engines stream request bodies, their tracer first takes a stream from the body-stream pool for a marker body (standing in for another connection) and then reads Request.Body(); POST bodies of 6..9600 bytes are compared with what Request.Body() gives inside Finish (poison-on-free hook H3 on); a recording tracer's Start/Finish calls and the stage events are judged by an online checker of the (Start Finish)* grammar and the stage order; " +
 			"distinct = hash of (idle mode, level, outcome sequence, end action, segmentation policy); non-trivial = at least 2 requests or a non-ok outcome",
 		Assumptions: []string{
 			"loopback family: real servers on the standard and netpoll transports, the client closes the connection after the responses; the tracer log is read once it has been stable for 30 ms",
@@ -102,7 +102,7 @@ func (r *rec) Finish(ctx context.Context, c *app.RequestContext) {
 			problem = fmt.Sprintf("stage %s started but %s was never recorded", names[p[0]], names[p[1]])
 		}
 	}
-	if st.GetEvent(stats.HTTPStart) == nil || st.GetEvent(stats.HTTPFinish) == nil {
+	if (st.GetEvent(stats.HTTPStart) == nil || st.GetEvent(stats.HTTPFinish) == nil) && st.Level() != stats.LevelDisabled {
 		// base level always records these two
 		problem = "HTTPStart/HTTPFinish missing"
 	}
@@ -137,6 +137,7 @@ type ecfg struct {
 	idle0    bool
 	detailed bool
 	stream   bool // request bodies are streamed
+	disabled bool // trace level "disabled": no stage events, but the tracers are still called
 }
 
 type engine struct {
@@ -155,7 +156,9 @@ func build(cf ecfg) *engine {
 		}
 		o.MaxRequestBodySize = 10000
 		o.StreamRequestBody = cf.stream
-		if cf.detailed {
+		if cf.disabled {
+			o.TraceLevel = stats.LevelDisabled
+		} else if cf.detailed {
 			o.TraceLevel = stats.LevelDetailed
 		} else {
 			o.TraceLevel = stats.LevelBase
@@ -265,6 +268,10 @@ func work(w *mon.W) {
 func oneConn(w *mon.W, c *mon.Case, get func(ecfg) *engine, loopback bool) {
 	r := c.R
 	cf := ecfg{idle0: r.Bool(), detailed: r.Bool(), stream: r.Chance(4)}
+	if r.Chance(6) {
+		// the level filters the stage events; the start/finish pairing is owed at every level
+		cf.disabled, cf.detailed = true, false
+	}
 	var en *engine
 	var lb *lbServer
 	np := false
